@@ -47,7 +47,11 @@ def opSrvReq (args : List SExp) : Option OpResult := do
     let r ← frReq q
     let out := serve r
     let impl := s!"{out.status} {boolTok out.mutated}"
-    pure ⟨impl, judgeOutcome (malformed r) r.method⟩
+    -- C12: a well-formed request reaches a creating / updating / deleting backend call only where the level of its path
+    -- allows the method (collections are created at collection level, objects written at object level, …)
+    let c12 : String → List (String × String) := fun got =>
+      if !malformed r && !out.mutated && got.endsWith " 1" then [("C12", s!"{r.method}-reached-a-mutating-call-at-level-{r.level}")] else []
+    pure ⟨impl, fun got => judgeOutcome (malformed r) r.method got ++ c12 got⟩
   | _ => none
 
 /-- `srv.obj <srv> <body> => <status> <mutated>`: an object body through PUT; the object parsers are outside the model
